@@ -57,7 +57,7 @@ def cells(tier):
 @st.composite
 def cell_cases(draw, cell):
     return {"cell": cell, "a": draw(st.sampled_from([0.5, 1.5, -1.0, 2.0])), "b": draw(st.sampled_from([0.5, -0.5, 1.0, 3.0])),
-            "c": draw(st.sampled_from([1, 2, 3])), "prior_solve": draw(st.booleans()),
+            "c": draw(st.sampled_from([1, 2, 3])), "prior_solve": draw(st.booleans()), "maximize": draw(st.booleans()),
             "extra": draw(st.lists(st.tuples(st.sampled_from(["fun", "jac", "entry"]), st.sampled_from(sorted(EXCS)),
                                              st.integers(1, 6)), max_size=2))}
 
@@ -76,7 +76,8 @@ def make_problem(case):
     a, b, c = case["a"], case["b"], case["c"]
     x, y = Variable("x", lb=-4, ub=4), Variable("y", lb=-4, ub=4)
     if kind == "lp":
-        P = Problem().minimize(c * x + (a + 2.5) * y + 1).subject_to(x + y >= 1).subject_to(x - y <= 2)
+        obj = c * x + (a + 2.5) * y + 1
+        P = (Problem().maximize(obj) if case.get("maximize") else Problem().minimize(obj)).subject_to(x + y >= 1).subject_to(x - y <= 2)
         return P, "auto"
     if kind in ("qp-slsqp", "qp-in-recursion-block"):
         P = Problem().minimize((x - a) ** 2 + c * (y - b) ** 2).subject_to(x + y <= 1).subject_to(x - 2 * y >= -3)
